@@ -254,7 +254,8 @@ def mv_case(rng, tier):
             # fall through to a random op on d
             a = d
         op = rng.choice(["add", "add", "sub", "sub", "mul", "mul", "neg", "mulc", "pow", "addmul", "submul", "shl", "der",
-                         "addmon", "addmon", "cancel", "cancel", "asg", "ord", "evi", "touni", "fromuni"])
+                         "addmon", "addmon", "cancel", "cancel", "asg", "ord", "evi", "touni", "fromuni",
+                         "obs", "obs", "isas", "touvm", "touvm", "red", "gcoef", "mgcd", "addmon2"])
         before = len(pool[d])
         if op in ("add", "sub"):
             new = padd(m, pool[a], pool[b], 1 if op == "add" else -1)
@@ -338,6 +339,66 @@ def mv_case(rng, tier):
         elif op == "touni":
             ops.append("touni %d" % a)
             continue
+        elif op == "obs":
+            ops.append("obs %d" % a)
+            continue
+        elif op in ("isas", "touvm"):
+            used = sorted({x for kk in pool[a] for x, _ in kk})
+            mask = 0
+            for x in range(NV):
+                if rng.random() < 0.5:
+                    mask |= 1 << x
+            if used and rng.random() < 0.6:
+                # everything assigned, or everything but the main variable, or everything but one other variable
+                mask = (1 << NV) - 1
+                r = rng.random()
+                if r < 0.5:
+                    mask &= ~(1 << topvar(order, pool[a]))
+                elif r < 0.65:
+                    mask &= ~(1 << rng.choice(used))
+            vals = [in_ring(rng, m) if rng.random() < 0.3 else red(m, rng.randint(-3, 3)) for _ in range(NV)]
+            ops.append("%s %d %d %s" % (op, a, mask, ",".join(map(str, vals))))
+            continue
+        elif op == "mgcd":
+            if m != 0:
+                continue                                           # lp_monomial_gcd is defined over Z only
+            def rterm():
+                kk = [(x, rng.randint(1, 5)) for x in rng.sample(range(NV), rng.randint(0, 4))]
+                g = rng.choice([1, 2, 3, 6, 2**64, 2**70 * 3])
+                return term_text(kk, rng.choice([1, -1]) * g * rng.randint(1, 12))
+            ops.append("mgcd %s %s" % (rterm(), rterm()))
+            continue
+        elif op == "red":
+            x = topvar(order, pool[a])
+            if x is None:
+                new = pool[d]
+            else:
+                dd = deg_in(pool[a], x)
+                new = {kk: c for kk, c in pool[a].items() if dict(kk).get(x, 0) != dd}
+            ops.append("red %d %d" % (d, a))
+        elif op == "gcoef":
+            x = topvar(order, pool[a])
+            dd = deg_in(pool[a], x) if x is not None else 0
+            kk_ = rng.choice([0, 0, 1, dd, dd, max(dd - 1, 0), dd + 1, rng.randint(0, dd + 2)])
+            if x is None:
+                new = dict(pool[a]) if kk_ == 0 else {}
+            else:
+                new = {}
+                for kk, c in pool[a].items():
+                    dm = dict(kk)
+                    if dm.get(x, 0) == kk_:
+                        dm.pop(x, None)
+                        new[tuple(sorted(dm.items()))] = c
+            ops.append("gcoef %d %d %d" % (d, a, kk_))
+        elif op == "addmon2":
+            kk = tuple(sorted((x, rng.randint(1, 4)) for x in rng.sample(vars_, rng.randint(0, min(3, len(vars_))))))
+            if rng.random() < 0.4 and pool[d]:
+                kk = rng.choice(sorted(pool[d]))
+            c = coeff(rng, m)
+            new = padd(m, pool[d], {kk: c})
+            lst = list(kk)
+            rng.shuffle(lst)
+            ops.append("addmon2 %d %s" % (d, term_text(lst, c)))
         elif op == "fromuni":
             x = rng.choice(vars_)
             cs = [rng.choice([0, 0, coeff(rng, m)]) for _ in range(rng.randint(1, 6))]
@@ -378,7 +439,28 @@ def uv_case(rng, tier):
         if m and rng.random() < 0.3:
             cs = [c * rng.choice([1, m, 2, 3]) for c in cs]
         return cs
-    pool = [dense() for _ in range(n)]
+    def shaped():
+        """sparse shapes: odd/even number of terms, gaps, zero constant term, negative leading coefficient,
+        everything a multiple of m (collapses to 0 in Z_m), leading coefficient +-1 or a common factor (monic-able)"""
+        nt = rng.choice([1, 2, 3, 4, 5])
+        exps = sorted(rng.sample(range(0, 13), nt))
+        if rng.random() < 0.5 and exps[0] == 0:
+            sh = rng.randint(1, 3)
+            exps = [e + sh for e in exps]                         # zero constant term
+        if rng.random() < 0.3:
+            g = rng.choice([2, 3, 4])
+            exps = [e * g for e in exps]                          # p(x^g)
+        cs = [0] * (exps[-1] + 1)
+        f = rng.choice([1, 1, -1, 2, -3, m if m else 5, coeff(rng, m)]) or 1
+        for e in exps:
+            cs[e] = f * rng.choice([1, -1, 2, -2, 3, 7, -11])
+        r = rng.random()
+        if r < 0.35:
+            cs[exps[-1]] = rng.choice([f, -f])                    # leading coefficient divides everything
+        elif r < 0.5:
+            cs[exps[-1]] = -abs(cs[exps[-1]])
+        return cs
+    pool = [dense() if rng.random() < 0.5 else shaped() for _ in range(n)]
     if rng.random() < 0.2:
         pool[1] = [-c for c in pool[0]]
     if rng.random() < 0.15:
@@ -388,7 +470,10 @@ def uv_case(rng, tier):
     ops = []
     for _ in range(rng.randint(1, 8)):
         d, a, b = rng.randrange(n), rng.randrange(n), rng.randrange(n)
-        op = rng.choice(["add", "sub", "mul", "mul", "neg", "der", "pow", "mulc", "mulc", "evi", "evq", "evd", "topoly"])
+        op = rng.choice(["add", "sub", "mul", "mul", "neg", "der", "pow", "mulc", "mulc", "evi", "evq", "evd", "topoly",
+                         "sgi", "sgi", "sgq", "sgd", "uobs", "uobs", "monic", "monici", "negi", "rev", "rev", "sxn", "sxp",
+                         "cpow", "cint", "clong", "divdeg", "setring", "copyk"]
+                        + (["sgq", "sgd", "sgq", "sgd", "evq", "evd"] if m == 0 else ["setring", "copyk", "monic", "monici"]))
         if op in ("add", "sub"):
             ops.append("%s %d %d %d" % (op, d, a, b)); degs[d] = max(degs[a], degs[b])
         elif op == "mul":
@@ -416,6 +501,51 @@ def uv_case(rng, tier):
             ops.append("evd %d %d %d" % (a, rng.choice([0, 1, -1, 3, -5, rng.randint(-99, 99), coeff(rng, 0)]), rng.choice([0, 1, 2, 5, 64])))
         elif op == "topoly":
             ops.append("topoly %d %d" % (a, rng.randrange(NV)))
+        elif op == "sgi":
+            ops.append("sgi %d %d" % (a, in_ring(rng, m) if rng.random() < 0.5 else red(m, rng.randint(-4, 4))))
+        elif op == "sgq" and m == 0:
+            den = rng.choice([1, 2, 3, 7, 2**64 + 1, rng.randint(1, 50)]) * rng.choice([1, -1])
+            ops.append("sgq %d %d %d" % (a, rng.choice([0, 1, -1, rng.randint(-50, 50), coeff(rng, 0)]), den))
+        elif op == "sgd" and m == 0:
+            ops.append("sgd %d %d %d" % (a, rng.choice([0, 1, -1, 3, -5, rng.randint(-99, 99), coeff(rng, 0)]), rng.choice([0, 1, 2, 5, 64])))
+        elif op == "uobs":
+            ops.append("uobs %d" % a)
+        elif op == "monic":
+            ops.append("monic %d %d" % (d, a)); degs[d] = degs[a]
+        elif op in ("monici", "negi", "rev"):
+            ops.append("%s %d" % (op, a))
+        elif op == "sxn":
+            ops.append("sxn %d %d" % (d, a)); degs[d] = degs[a]
+        elif op == "sxp":
+            e = rng.choice([1, 2, 2, 3, 4])
+            if degs[a] * e > 60:
+                continue
+            ops.append("sxp %d %d" % (a, e)); degs[a] = degs[a] * e
+            if rng.random() < 0.6:
+                ops.append("divdeg %d %d %d" % (d, a, rng.choice([e, e, 2, 3]))); degs[d] = degs[a]
+        elif op == "divdeg":
+            ops.append("divdeg %d %d %d" % (d, a, rng.choice([2, 2, 3, 4]))); degs[d] = degs[a]
+        elif op == "cpow":
+            c = rng.choice([0, 1, -1, 5, m, -m, 2 * m, rng.randint(-9, 9), 2**62, -2**63, coeff(rng, m) % 2**62])
+            if not (-2**63 <= c <= 2**63 - 1):
+                c = c % 2**62                                       # the argument is a C long
+            dg = rng.choice([0, 0, 1, 2, 5, 9])
+            ops.append("cpow %d %d %d" % (d, dg, c)); degs[d] = dg + 1
+        elif op in ("cint", "clong"):
+            lim = 2**31 - 1 if op == "cint" else 2**63 - 1
+            cs = [rng.choice([0, 0, 1, -1, m, -m, lim, -lim - 1, rng.randint(-lim, lim), rng.randint(-9, 9)]) for _ in range(rng.randint(1, 7))]
+            cs = [max(-lim - 1, min(lim, c)) for c in cs]
+            if rng.random() < 0.4:
+                cs += [0] * rng.randint(1, 3)
+            ops.append("%s %d %s" % (op, d, ",".join(map(str, cs)))); degs[d] = len(cs)
+        elif op == "setring" and m != 0:
+            # documented for a "larger" ring only: Z, or a modulus at least as big
+            m2 = rng.choice([0, 0, m * 2, m * 3 + 1, m + 1, 2**64 + 13 if m < 2**64 else m * 5])
+            ops.append("setring %d %d" % (a, m2))
+        elif op == "copyk":
+            m2 = rng.choice([0, 2, 3, 4, 5, 6, 9, 13, 2**64 + 13, m * 2 if m else 7, m + 1 if m else 10**20])
+            if m2 != m:
+                ops.append("copyk %d %d" % (a, m2))
     if not ops:
         ops.append("add 0 0 1")
     return "uv %d %d %s %s" % (m, n, " ".join(texts), " ".join(ops))
@@ -444,10 +574,13 @@ def case_ops(case):
     if t[0] == "mv":
         k = 4 + int(t[3])
         ar = {"add": 4, "sub": 4, "mul": 4, "addmul": 4, "submul": 4, "mulc": 4, "pow": 4, "shl": 4, "fromuni": 4,
-              "neg": 3, "asg": 3, "der": 3, "addmon": 3, "evi": 3, "ord": 2, "touni": 2}
+              "neg": 3, "asg": 3, "der": 3, "addmon": 3, "evi": 3, "ord": 2, "touni": 2,
+              "obs": 2, "isas": 4, "touvm": 4, "red": 3, "gcoef": 4, "mgcd": 3, "addmon2": 3}
     else:
         k = 3 + int(t[2])
-        ar = {"add": 4, "sub": 4, "mul": 4, "mulc": 4, "pow": 4, "evq": 4, "evd": 4, "neg": 3, "der": 3, "evi": 3, "topoly": 3}
+        ar = {"add": 4, "sub": 4, "mul": 4, "mulc": 4, "pow": 4, "evq": 4, "evd": 4, "neg": 3, "der": 3, "evi": 3, "topoly": 3,
+              "sgi": 3, "sgq": 4, "sgd": 4, "uobs": 2, "monic": 3, "monici": 2, "negi": 2, "rev": 2, "sxn": 3, "sxp": 3,
+              "cpow": 4, "cint": 3, "clong": 3, "divdeg": 4, "setring": 3, "copyk": 3}
     ops = []
     while k < len(t):
         a = ar.get(t[k])
@@ -495,7 +628,7 @@ def extra_coverage(cases, couts, mouts):
         for o in case_ops(c):
             key = kind + ":" + o[0]
             hist[key] = hist.get(key, 0) + 1
-            if len(o) >= 3 and o[0] not in ("addmon", "evi", "evq", "evd", "topoly", "fromuni") and o[1] in o[2:]:
+            if len(o) >= 3 and o[0] in ("add", "sub", "mul", "addmul", "submul", "neg", "asg", "der", "mulc", "pow", "shl", "red", "gcoef", "monic", "sxn") and o[1] in o[2:3 if o[0] in ("mulc", "pow", "shl", "gcoef") else 4]:
                 aliased += 1
     steps = sum(hist.values())
     return {"operation_histogram": hist, "steps": steps, "aliased_output_steps": aliased,
